@@ -139,6 +139,9 @@ func (g *Gen) FindFunc(key string) *ssa.Function {
 }
 
 func (g *Gen) strLit(s string) string {
+	if s == "" {
+		return "emptystr"
+	}
 	if n, ok := g.strlits[s]; ok {
 		return n
 	}
@@ -250,10 +253,9 @@ func (g *Gen) zero(t types.Type) string {
 	case s == "Iface":
 		return "(mk_Iface 0 0)"
 	case s == "Str":
-		if b, ok := t.Underlying().(*types.Basic); ok && b.Info()&types.IsString != 0 {
-			return g.strLit("")
-		}
-		return "nil_Str"
+		return "emptystr"
+	case s == "Bytes":
+		return "nil_Bytes"
 	}
 	if si, ok := g.reg.seqs[s]; ok {
 		return si.Nil
@@ -319,9 +321,9 @@ func (g *Gen) declareSpecFunc(sf *SpecFunc) {
 	g.sfDecl[sf.Name] = true
 	var ps []string
 	for _, p := range sf.Params {
-		ps = append(ps, g.reg.STSort(g.resolveType(p.Type, sf.File, nil)))
+		ps = append(ps, g.reg.STSort(g.resolveType(p.Type, sf.File, g.filePkg(sf.File))))
 	}
-	rs := g.reg.STSort(g.resolveType(sf.Ret, sf.File, nil))
+	rs := g.reg.STSort(g.resolveType(sf.Ret, sf.File, g.filePkg(sf.File)))
 	g.sfDecls = append(g.sfDecls, fmt.Sprintf("(declare-fun sf_%s (%s) %s)", sf.Name, strings.Join(ps, " "), rs))
 }
 
@@ -332,4 +334,11 @@ func sortedStrs(m map[string]bool) []string {
 	}
 	sort.Strings(ks)
 	return ks
+}
+
+func (g *Gen) filePkg(file string) *types.Package {
+	if p := g.db.FilePkg[file]; p != "" {
+		return g.findPackage(p)
+	}
+	return nil
 }
